@@ -17,7 +17,7 @@ META = dict(
           "(directed) incl. edgeless, seeded G(n,p) up to 14 nodes, graphs "
           "with isolated trailing nodes, a single link. Every case is built "
           "through: dense list, ndarray {int8,int64,bool,float64}, scipy "
-          "{csc,csr,coo,lil}, edge list (+n_nodes) via constructor and via "
+          "{csc,csr,coo,lil} (also with explicitly stored zeros), edge list (+n_nodes) via constructor and via "
           "set_edge_list, FromIGraph, copy(), undirected_copy() (undirected "
           "inputs), save->Load for graphml/graphmlz/pickle/gml, and for "
           "SpatialNetwork/GeoNetwork save->Load with their grid file. Oracle: "
@@ -142,6 +142,13 @@ def one_input(ctx, inp, cid, tmp, heavy=True):
     for fmt in ("csc", "csr", "coo", "lil"):
         build(f"scipy-{fmt}",
               lambda fmt=fmt: mk(getattr(sp, fmt + "_matrix")(A)))
+    # sparse input that stores explicit zeros (e.g. after entries were
+    # cleared in place): they are not links
+    rr, cc = np.nonzero(np.ones_like(A) - np.eye(n, dtype=A.dtype))
+    build("scipy-coo-explicit-zeros",
+          lambda: mk(sp.coo_matrix((A[rr, cc], (rr, cc)), shape=(n, n))))
+    build("scipy-csr-explicit-zeros",
+          lambda: mk(sp.csr_matrix((A[rr, cc], (rr, cc)), shape=(n, n))))
     edges = np.argwhere(A if d else np.triu(A))
     build("edge_list-ctor", lambda: with_attr(Network(
         edge_list=edges, n_nodes=n, directed=d, node_weights=w,
